@@ -5,6 +5,8 @@ import (
 	"os"
 	"strings"
 
+	mqtt "github.com/mochi-mqtt/server/v2"
+
 	"github.com/mochi-mqtt/server/v2/verifsim"
 )
 
@@ -26,3 +28,5 @@ func init() {
 		}
 	}
 }
+
+type mqttClient = mqtt.Client
